@@ -30,7 +30,18 @@ static void gen(G1Affine& a, int t) { G1 p; gen(p, t); memset(&a, 0, sizeof a); 
 static void gen(G2Affine& a, int t) { G2 p; gen(p, t); memset(&a, 0, sizeof a); a.from_projective(p); }
 static void gen(Fq12& a, int t) { if (t % 5 == 0) { a.copy(Fq12::one); return; } if (t % 5 == 2) { a.random(rng_cb); return; }   // GT-typed arguments may hold any Fq12 value (gt_unmarshal checks nothing)
     BigInt<256> k; rng_cb(k.bytes, 32); a.exponentiate_gt_nodiv(generator_pairing, k); }
-static void gen(BigInt<256>& k, int t) { if (t % 5 == 0) memset(&k, 0, sizeof k); else if (t % 5 == 1) memset(&k, 0xff, sizeof k); else rng_cb(k.bytes, 32); }
+static void gen(BigInt<256>& k, int t) {
+    if (t % 5 == 0) memset(&k, 0, sizeof k);
+    else if (t % 5 == 1) memset(&k, 0xff, sizeof k);
+    else if (t % 5 == 3) {
+        // sparse scalars: whole 32- / 64- / 128-bit units equal to zero below or between the set bits
+        static const int pat[][2] = {{128, -1}, {130, 192}, {64, -1}, {32, -1}, {200, 129}, {255, -1}, {96, 160}, {128, 0}};
+        memset(&k, 0, sizeof k);
+        const int* p = pat[(t / 5) % 8];
+        for (int j = 0; j < 2; j++) if (p[j] >= 0) k.bytes[p[j] / 8] |= (uint8_t) (1u << (p[j] % 8));
+        if ((t / 5) % 3 == 1) k.bytes[16] |= 7;        // 7 * 2^128 and friends
+    } else rng_cb(k.bytes, 32);
+}
 
 template <typename T> static bool eq(const T& a, const T& b) { return memcmp(&a, &b, sizeof(T)) == 0; }
 static bool eqa(const G1Affine& a, const G1Affine& b) { return a.infinity == b.infinity && eq(a.x, b.x) && eq(a.y, b.y); }
